@@ -3,7 +3,7 @@ import DarkluaModel.Shared.VisitorSound.Heap.HParam
 # Loops: related step functions (at every extension of the injection) give related loops
 -/
 namespace DarkluaModel.Sem.Heap
-variable {N : NumOps} {Q : QRel} {cx : Cx} {β : CellRel}
+variable {N : NumOps} {Q : QRel} {cx : Cx} {β : CellRel N}
 
 /-- control results agree for the enclosing LOOP: `next` and `continue` both mean "iterate again" (so the
 original's `continue` may be matched by the rewritten body's normal completion), `break` matches
